@@ -8,6 +8,14 @@
   x / y / err_z, statistics, every field handed to the progress callback, the number of events — is
   computed by the model and printed, and must equal what the real solver produced, bit for bit.
   Never-written vector storage is NaN on both sides (the harness fills fresh allocations with 0xFF).
+
+  Fuel: `pr` below leaves `Params.qubFuel` at its default 4096 (the only fuel that can run out: the main
+  loop's `max_iter + 1` suffices unconditionally, `Proofs/PantrInv.lean: mainLoop_exit_at_head`); a run
+  in which a `backtrack_qub` exhausted it prints `FUEL-EXHAUSTED` and the comparison fails.  Over an
+  ordered field `Proofs/PantrFuel.lean: pantr_fuel_suffices` proves that cannot happen when
+  `L_max ≤ L_init·2ᴺ`, `N < 4096` (`N = 84` for the extreme parameters `checks/loop_pantr.py` draws:
+  `L_min = 1e-5`, `L_max = 1e20`; example at the end of `Props/C03_Pantr.lean`).  The early `NotFinite`
+  return reports `ε = co.inf = +inf`, as the C++ `Stats` default, and is compared unmasked.
 -/
 import Driver.ReplayCommon
 import Alpaqa.Model.Pantr
